@@ -43,6 +43,7 @@ RULE_DOC = {
     "R-panicatomic": "no effect on a pre-existing receiver precedes the panic taken when allocation fails (iterator-driven operations: between items)",
     "C13-lands": "realloc returns Ok only after recording the requested capacity",
     "C11-lands": "realloc returns Ok only after recording the requested capacity",
+    "ENGINE": "a rule could not be evaluated (fail closed)",
     "FLOOR": "instance floor (fail closed)",
     "BUILD": "configuration builds",
     "unclassified": "construct the rule tables do not know",
